@@ -100,3 +100,79 @@ Theorem C09_read_molfile_write_molfile : forall (line2 : text) (m : mol rpay (op
   = graph_from_molecule (map expected_atom (atoms m)) (map expected_bond (bonds m)).
 Proof. exact read_molfile_write_molfile. Qed.
 Print Assumptions C09_read_molfile_write_molfile.
+
+(* 6. "Consequently string -> graph -> molfile -> graph -> string returns the original TUCAN string."
+      Proofs in Proofs/MolfilePipeline.v, composed from the theorem above, C01 (tucan_invariant),
+      C03 (parse_tucan_roundtrip) and C11 (parsed_graph_wf).
+      FINDING: the sentence needs a hypothesis.  The grammar accepts every radical value >= 1, the
+      writer prints RAD only for 1..3, so a canonical string with rad=4 loses the radical on the way
+      (C09_radical_lost).  Under rad_in_format_range the sentence holds for every oracle satisfying
+      H1, H2 and every header line without line breaks. *)
+Require Import Parse Pipeline MolProofs CanonProofs AstOf MolfilePipeline.
+Require Norm RoundTrip2 RefCanon.
+
+(* the graph handed to the writer: element symbols from the table, no charge, coordinates printed
+   as 0.000000, no bond type; defined on every parsed graph *)
+Theorem C09_written_ok : forall (s : text) (g : mol unit unit) (w : mol rpay (option Z)),
+  ref_parse s = inr g -> to_writer_graph g = Some w -> mol_ok w.
+Proof. exact written_ok. Qed.
+Print Assumptions C09_written_ok.
+
+Theorem C09_written_line_length : forall (s : text) (g : mol unit unit) (w : mol rpay (option Z)) (line2 : text),
+  nolb line2 -> length line2 <= 79 -> ref_parse s = inr g -> to_writer_graph g = Some w ->
+  forall l, In l (splitlines (write_molfile line2 w)) -> length l <= 79.
+Proof. exact written_line_length. Qed.
+Print Assumptions C09_written_line_length.
+
+(* any accepted string: the graph read back from the written molfile has the same TUCAN string *)
+Theorem C09_tucan_molfile_roundtrip : forall canon, H1 canon -> H2 canon ->
+  forall (s : text) (g : mol unit unit) (w : mol rpay (option Z)) (line2 : text),
+  nolb line2 -> ref_parse s = inr g -> rad_in_format_range g -> to_writer_graph g = Some w ->
+  exists g', V2000.read_molfile (write_molfile line2 w) = ok g' /\ tucan canon g' = tucan canon g.
+Proof. exact tucan_molfile_roundtrip. Qed.
+Print Assumptions C09_tucan_molfile_roundtrip.
+
+(* a canonical string comes back *)
+Theorem C09_tucan_molfile_roundtrip_canonical : forall canon, H1 canon -> H2 canon ->
+  forall (s : text) (g : mol unit unit) (w : mol rpay (option Z)) (line2 : text),
+  nolb line2 -> ref_parse s = inr g -> rad_in_format_range g -> to_writer_graph g = Some w ->
+  tucan canon g = Some s ->
+  exists g', V2000.read_molfile (write_molfile line2 w) = ok g' /\ tucan canon g' = Some s.
+Proof. exact tucan_molfile_roundtrip_canonical. Qed.
+Print Assumptions C09_tucan_molfile_roundtrip_canonical.
+
+(* the whole chain for the string s emitted for any molecule graph m: every stage succeeds and the
+   last one returns s *)
+Theorem C09_tucan_molfile_pipeline : forall canon, H1 canon -> H2 canon ->
+  forall (P B : Type) (m : mol P B) (s line2 : text),
+  nolb line2 -> wfg m -> RoundTrip2.simple m -> pos_attrs m -> rad_in_format_range m -> tucan canon m = Some s ->
+  exists g w g',
+    ref_parse s = inr g /\ to_writer_graph g = Some w /\
+    V2000.read_molfile (write_molfile line2 w) = ok g' /\ tucan canon g' = Some s.
+Proof. intros canon HH1 HH2 P B. exact (@tucan_molfile_pipeline canon HH1 HH2 P B). Qed.
+Print Assumptions C09_tucan_molfile_pipeline.
+
+(* on strings only: c the normal form of an accepted string s0 *)
+Theorem C09_norm_molfile_pipeline : forall canon, H1 canon -> H2 canon ->
+  forall (s0 : text) (g0 : mol unit unit) (c line2 : text),
+  nolb line2 -> ref_parse s0 = inr g0 -> rad_in_format_range g0 -> Norm.norm canon s0 = Some c ->
+  exists g w g',
+    ref_parse c = inr g /\ to_writer_graph g = Some w /\
+    V2000.read_molfile (write_molfile line2 w) = ok g' /\ tucan canon g' = Some c.
+Proof. exact norm_molfile_pipeline. Qed.
+Print Assumptions C09_norm_molfile_pipeline.
+
+(* non-vacuity (run by the executable model with the reference oracle) and the counterexample *)
+Theorem C09_pipeline_example :
+  run_pipeline (t "  TUCAN01010012600393D") (t "CH4O/(1-5)(2-5)(3-5)(4-6)(5-6)/(4:mass=2)(5:mass=13,rad=2)")
+  = Some (t "CH4O/(1-5)(2-5)(3-5)(4-6)(5-6)/(4:mass=2)(5:mass=13,rad=2)").
+Proof. exact ex_s_pipeline. Qed.
+Print Assumptions C09_pipeline_example.
+
+Theorem C09_radical_lost :
+  Norm.norm RefCanon.ref_canon (t "CH4O/(1-5)(2-5)(3-5)(4-6)(5-6)/(4:mass=2)(5:mass=13,rad=4)")
+  = Some (t "CH4O/(1-5)(2-5)(3-5)(4-6)(5-6)/(4:mass=2)(5:mass=13,rad=4)")
+  /\ run_pipeline (t "  TUCAN01010012600393D") (t "CH4O/(1-5)(2-5)(3-5)(4-6)(5-6)/(4:mass=2)(5:mass=13,rad=4)")
+     = Some (t "CH4O/(1-5)(2-5)(3-5)(4-6)(5-6)/(4:mass=2)(5:mass=13)").
+Proof. exact (conj ex_rad4_canonical (proj1 ex_rad_lost)). Qed.
+Print Assumptions C09_radical_lost.
